@@ -1,7 +1,7 @@
 (* Proofs of the statements of Proofs/MachineStmt.v (machine-level facts that hold for all programs).
    Two statements are false as written (counterexamples below, checked by vm_compute); for those the closest
    true variant is proved under the name <name>_partial_proof. *)
-From Coq Require Import NArith ZArith List Bool Lia ZifyBool ZifyN ZifyNat.
+From Coq Require Import NArith ZArith List Bool Lia ZifyBool ZifyN ZifyNat FMapPositive.
 From Lug Require Import Gen.Consts Gen.UcdTables Utf8.Utf8Model Ucd.Lookup Ucd.RuneSet VM.Instr Lang.Core Lang.Elab VM.Machine Proofs.MachineStmt.
 Import ListNotations.
 Local Open Scope N_scope.
@@ -295,21 +295,28 @@ Qed.
 (* ------------------------------------------------------------------ C20 *)
 Lemma available_loop_S f i nreq nmax s :
   available_loop (S f) i nreq nmax s =
-  if (i <? lenN (buf s)) && (nreq <=? lenN (buf s) - i) then (true, s)
-  else if (i <? lenN (buf s)) && interactive s then (false, s)
+  if (i <? lenN (buf s)) && (nmax <=? lenN (buf s) - i) then (true, s)
+  else if (i <? lenN (buf s)) && interactive s then (nreq <=? lenN (buf s) - i, s)
+  else if (i <? lenN (buf s)) && (nreq <=? lenN (buf s) - i)
+  then (true, snd (fill_buffer 0 (nmax - (lenN (buf s) - i)) s))
   else let '(ok, s') := fill_buffer (nreq - (lenN (buf s) - i)) (nmax - (lenN (buf s) - i)) s in
        if ok then available_loop f i nreq nmax s' else (false, s').
 Proof. reflexivity. Qed.
 
+(* enough buffered input: the answer is yes whatever the fuel (the state may still be topped up) *)
 Lemma available_loop_hit fuel i nreq nmax s :
-  (i <? lenN (buf s)) && (nreq <=? lenN (buf s) - i) = true -> available_loop fuel i nreq nmax s = (true, s).
-Proof. intros H. destruct fuel; cbn [available_loop]; rewrite H; reflexivity. Qed.
+  (i <? lenN (buf s)) && (nreq <=? lenN (buf s) - i) = true -> fst (available_loop fuel i nreq nmax s) = true.
+Proof.
+  intros H. apply andb_prop in H. destruct H as [H1 H2].
+  destruct fuel; cbn [available_loop]; rewrite H1, H2; cbn [andb];
+    destruct (nmax <=? lenN (buf s) - i); try reflexivity; destruct (interactive s); reflexivity.
+Qed.
 
 Theorem C20_no_poll_while_unread_proof : stmt_C20_no_poll_while_unread.
 Proof.
   intros i n d s Hi Hlt. unfold available. rewrite available_loop_S, Hi.
   replace (i <? lenN (buf s)) with true by lia. cbn [andb].
-  destruct (n <=? lenN (buf s) - i); reflexivity.
+  destruct (N.max n d <=? lenN (buf s) - i); reflexivity.
 Qed.
 
 (* ------------------------------------------------------------------ C09 *)
@@ -338,10 +345,13 @@ Lemma available_loop_keeps fuel i nreq nmax : forall s,
   iocore (snd (available_loop fuel i nreq nmax s)) = iocore s /\ all_input (snd (available_loop fuel i nreq nmax s)) = all_input s.
 Proof.
   induction fuel as [|f IH]; intros s.
-  - cbn [available_loop]. destruct ((i <? lenN (buf s)) && (nreq <=? lenN (buf s) - i)); [auto|].
-    destruct ((i <? lenN (buf s)) && interactive s); auto.
-  - rewrite available_loop_S. destruct ((i <? lenN (buf s)) && (nreq <=? lenN (buf s) - i)); [auto|].
+  - cbn [available_loop]. destruct ((i <? lenN (buf s)) && (nmax <=? lenN (buf s) - i)); [auto|].
     destruct ((i <? lenN (buf s)) && interactive s); [auto|].
+    destruct ((i <? lenN (buf s)) && (nreq <=? lenN (buf s) - i)); [|auto].
+    cbn [snd]. apply fill_buffer_keeps.
+  - rewrite available_loop_S. destruct ((i <? lenN (buf s)) && (nmax <=? lenN (buf s) - i)); [auto|].
+    destruct ((i <? lenN (buf s)) && interactive s); [auto|].
+    destruct ((i <? lenN (buf s)) && (nreq <=? lenN (buf s) - i)); [cbn [snd]; apply fill_buffer_keeps|].
     pose proof (fill_buffer_keeps (nreq - (lenN (buf s) - i)) (nmax - (lenN (buf s) - i)) s) as HF.
     destruct (fill_buffer (nreq - (lenN (buf s) - i)) (nmax - (lenN (buf s) - i)) s) as [ok s1]. cbn [snd] in HF.
     destruct HF as [H1 H2]. destruct ok; [|cbn [snd]; auto].
@@ -395,18 +405,18 @@ Theorem C09_available_total_proof : stmt_C09_available_total.
 Proof.
   intros i n d s Hint Hn Hi Hok. unfold available. rewrite available_loop_S.
   pose proof (lenN_all_input s) as HL.
-  destruct ((i <? lenN (buf s)) && (n <=? lenN (buf s) - i)) eqn:E1; [cbn [fst]; lia|].
+  destruct ((i <? lenN (buf s)) && (N.max n d <=? lenN (buf s) - i)) eqn:E0; [cbn [fst]; lia|].
   rewrite Hint, andb_false_r.
-  set (rem := lenN (buf s) - i) in *. set (nmax := N.max n d).
+  destruct ((i <? lenN (buf s)) && (n <=? lenN (buf s) - i)) eqn:E1; [cbn [fst]; lia|].
+  set (rem := lenN (buf s) - i) in *. set (nmax := N.max n d) in *.
   pose proof (fill_loop_spec (S (length (pending s))) (lenN (buf s) + (nmax - rem)) s Hok ltac:(lia)) as HS.
   unfold fill_buffer. destruct (alive s) eqn:Ea; cbn [negb].
-  - 
-    pose proof (fill_loop_keeps (S (length (pending s))) (lenN (buf s) + (nmax - rem)) s) as [_ HK].
+  - pose proof (fill_loop_keeps (S (length (pending s))) (lenN (buf s) + (nmax - rem)) s) as [_ HK].
     set (s1 := fill_loop (S (length (pending s))) (lenN (buf s) + (nmax - rem)) s) in *. cbv zeta in HS.
     pose proof (lenN_all_input s1) as HL1. rewrite HK in HL1.
     destruct HS as [S1 S2].
     destruct (lenN (buf s) + (n - rem) <=? lenN (buf s1)) eqn:E2.
-    + rewrite available_loop_hit by lia. cbn [fst]. lia.
+    + rewrite available_loop_hit by lia. lia.
     + cbn [fst]. destruct S2 as [S2|[_ S2]]; [lia|]. rewrite S2 in HL1. cbn [concat] in HL1. rewrite lenN_nil in HL1. lia.
   - cbn [fst]. rewrite (Hok eq_refl) in HL. cbn [concat] in HL. rewrite lenN_nil in HL. lia.
 Qed.
@@ -457,7 +467,7 @@ Proof. destruct (available_keeps i n d s) as [H _]. exact (f_equal k3 H). Qed.
 Lemma m_any_k3 flags s : k3 (snd (m_any flags s)) = k3 s.
 Proof.
   unfold m_any. destruct (negb (flags =? 0) && interactive s); [reflexivity|].
-  pose proof (available_k3 (sr s) 1 0 s) as H. destruct (available (sr s) 1 0 s) as [ok s1]. cbn [snd] in H.
+  pose proof (available_k3 (sr s) 1 max_rune_units s) as H. destruct (available (sr s) 1 max_rune_units s) as [ok s1]. cbn [snd] in H.
   destruct ok; [|exact H]. destruct (subject_from (sr s1) s1); exact H.
 Qed.
 Lemma m_eol_k3 s : k3 (snd (m_eol s)) = k3 s.
@@ -475,7 +485,7 @@ Qed.
 Lemma m_rune_res ucd test s : mres s (m_rune ucd test s).
 Proof.
   unfold m_rune.
-  pose proof (available_k3 (sr s) 1 0 s) as H. destruct (available (sr s) 1 0 s) as [ok s1]. cbn [snd] in H.
+  pose proof (available_k3 (sr s) 1 max_rune_units s) as H. destruct (available (sr s) 1 max_rune_units s) as [ok s1]. cbn [snd] in H.
   destruct ok; [|exact H]. destruct (decode_rune (subject_from (sr s1) s1)) as [n rune].
   destruct n; [exact H|]. destruct (test rune) as [[|]|]; cbn [mres not_running]; auto.
 Qed.
@@ -712,3 +722,202 @@ Proof.
     + apply aod_inv in H; [exact H|]. eapply inv_k3; [apply pop_k3|]. exact H2.
     + injection H as <-. exact H2.
 Qed.
+
+(* --- calls and returns *)
+Ltac fin Hi :=
+  let Hc := fresh "Hc" in let Hr := fresh "Hr" in
+  destruct Hi as [Hc Hr]; unfold inv, ci_inv in *; st; rsp; st;
+  try match goal with Hf : frames _ = _ |- _ => rewrite Hf in Hc end;
+  rewrite ?count_ci_cons in *; cbn [postpones] in *;
+  split; [lia | first [exact Hr | exact resume_lt | lia]].
+
+Lemma call_into_inv prec off s s' : inv s -> call_into prec off s = Running s' -> inv s'.
+Proof.
+  intros Hi H. unfold call_into in H. destruct (prec =? 0).
+  - injection H as <-. fin Hi.
+  - destruct (find_memo (frames s) (sr s) (pc s + off)%Z) as [f|].
+    + destruct f as [| | | |srr sra mprec pcr pca rcr saved| | | | |]; try discriminate.
+      destruct sra as [a|]; [|exact (start_fail_inv _ _ _ Hi H)].
+      destruct (prec <? mprec); [exact (start_fail_inv _ _ _ Hi H)|].
+      injection H as <-. eapply inv_k3; [apply restore_k3|]. exact Hi.
+    + injection H as <-. fin Hi.
+Qed.
+
+Lemma do_ret_inv cb s s' : inv s -> do_ret cb s = Running s' -> inv s'.
+Proof.
+  intros Hi H. unfold do_ret in H. destruct (frames s) as [|f rest] eqn:Hf; [discriminate|].
+  destruct f as [|p| | |srr sra prec pcr pca rcr saved|label x c h p| | | |]; try discriminate.
+  - injection H as <-. fin Hi.
+  - destruct (match sra with None => true | Some a => a <? sr s end).
+    + injection H as <-. fin Hi.
+    + apply aod_inv in H; [exact H|]. fin Hi.
+  - pose proof (rfr_spec cb label x c h p s) as R.
+    destruct (return_from_raise cb label x c h p s) as [r|[e s1]]; [subst r; contradiction|].
+    destruct R as (R1 & R2 & R3 & R4). destruct Hi as [Hc Hr]. specialize (R4 Hr).
+    replace (e =? RETHROW) with false in H by lia.
+    assert (inv (upd_frames (tl (frames s1)) s1)) as I2.
+    { unfold inv, ci_inv in *. st. rewrite R1, R2, R3, Hf. cbn [tl]. rewrite Hf, count_ci_cons in Hc. cbn [postpones] in Hc.
+      split; [lia|exact resume_lt]. }
+    destruct (BACKTRACK <=? e); [exact (start_fail_inv _ _ _ I2 H)|].
+    destruct (accept_or_drain_if_deferred (upd_frames (tl (frames s1)) s1)) as [s3| |] eqn:Ea; try discriminate.
+    apply aod_inv in Ea; [|exact I2]. destruct (e =? HALT); [discriminate|]. injection H as <-.
+    destruct (e <? ACCEPT); [exact (inv_k3 _ _ (success_k3 false s3) Ea)|exact Ea].
+Qed.
+
+Lemma raise_inv cb label (h : option Z) s1 s' : inv s1 ->
+  (if rinh s1 then
+     match unwind cb (N.to_nat (lenN (frames s1) - rid s1)) (upd_mr (N.max (mr s1) (sr s1)) s1) with
+     | Running s2 => start_fail 1 s2
+     | other => other
+     end
+   else
+     match h with
+     | None => start_fail 1 (upd_ci (cic s1 + 1) (cutf s1) (accf s1) (upd_cd (cd s1 + 1)
+                        (upd_frames (FRaise label (sr s1) (rc s1) (eh s1) (pc s1) :: frames s1) s1)))
+     | Some target => Running (upd_pc target (upd_rr RESUME (upd_ci (cic s1 + 1) (cutf s1) (accf s1) (upd_cd (cd s1 + 1)
+                        (upd_frames (FRaise label (sr s1) (rc s1) (eh s1) (pc s1) :: frames s1) s1)))))
+     end) = Running s' -> inv s'.
+Proof.
+  intros Hi H. destruct (rinh s1).
+  - destruct (unwind cb (N.to_nat (lenN (frames s1) - rid s1)) (upd_mr (N.max (mr s1) (sr s1)) s1)) as [s2| |] eqn:Eu;
+      try discriminate.
+    apply unwind_inv in Eu; [|exact Hi]. exact (start_fail_inv _ _ _ Eu H).
+  - destruct h as [t|]; [|unfold start_fail in H]; injection H as <-; fin Hi.
+Qed.
+
+(* --- one instruction.  Two instructions need a side condition: `recover_resp r` must not install rethrow, and
+   `commit` (which pops whatever frame is on top) must not be executed on top of a postponing frame. *)
+Lemma exec_inv ucd cb i s s' :
+  inv s ->
+  (forall r, i = IRecoverResp r -> r < RETHROW) ->
+  (forall off f rest, i = ICommit off -> frames s = f :: rest -> postpones f = false) ->
+  exec ucd cb i s = Running s' -> inv s'.
+Proof.
+  intros Hi Hrr Hcm H. destruct i; cbn [exec] in H.
+  - (* jump *) injection H as <-. exact Hi.
+  - (* choice *) injection H as <-. destruct pred; fin Hi.
+  - (* commit *)
+    destruct (frames s) as [|f rest] eqn:Hf; [discriminate|]. injection H as <-.
+    pose proof (Hcm off f rest eq_refl eq_refl) as Hp.
+    destruct Hi as [Hc Hr]. unfold inv, ci_inv in *. st. rewrite Hf, count_ci_cons, Hp in Hc. split; [lia|exact Hr].
+  - (* commit_back *)
+    destruct (frames s) as [|f rest] eqn:Hf; [discriminate|]. destruct f; try discriminate. injection H as <-. fin Hi.
+  - (* commit_partial *)
+    destruct (frames s) as [|f rest] eqn:Hf; [discriminate|]. destruct f; try discriminate. injection H as <-. fin Hi.
+  - (* accept *) apply aod_inv in H; [exact H|]. fin Hi.
+  - (* call *) exact (call_into_inv _ _ _ _ Hi H).
+  - (* ret *) exact (do_ret_inv _ _ _ Hi H).
+  - (* fail *) destruct (n =? 0); [injection H as <-; exact Hi|exact (start_fail_inv _ _ _ Hi H)].
+  - (* recover_push *) injection H as <-. fin Hi.
+  - (* recover_pop *)
+    destruct (frames s) as [|f rest] eqn:Hf; [discriminate|]. destruct f; try discriminate. injection H as <-. fin Hi.
+  - (* recover_resp *) injection H as <-. pose proof (Hrr r eq_refl). fin Hi.
+  - (* report_push *) injection H as <-. fin Hi.
+  - (* report_pop *)
+    destruct (frames s) as [|f rest] eqn:Hf; [discriminate|]. destruct f; try discriminate. injection H as <-. fin Hi.
+  - (* predicate *)
+    destruct (negb (subject_ok (upd_mr (N.max (mr s) (sr s)) s))); [discriminate|].
+    match type of H with (if _ then Running ?x else _) = _ => assert (inv x) as I2 by (eapply inv_k3; [apply pop_k3|exact Hi]) end.
+    destruct (cb_pred cb p (sr (upd_mr (N.max (mr s) (sr s)) s))); [injection H as <-; exact I2|exact (start_fail_inv _ _ _ I2 H)].
+  - (* action *) injection H as <-. exact Hi.
+  - (* capture_start *) injection H as <-. fin Hi.
+  - (* capture_end *)
+    destruct (frames s) as [|f rest] eqn:Hf; [discriminate|]. destruct f; try discriminate.
+    assert (inv (upd_ci (cic s - 1) (cutf s) (accf s) (upd_frames rest s))) as I2 by fin Hi.
+    match type of H with (if ?b then _ else _) = _ => destruct b end; [exact (start_fail_inv _ _ _ I2 H)|].
+    apply aod_inv in H; [exact H|]. exact I2.
+  - (* condition_pop *)
+    destruct (frames s) as [|f rest] eqn:Hf; [discriminate|]. destruct f; try discriminate. injection H as <-. fin Hi.
+  - (* symbol_end *)
+    destruct (frames s) as [|f rest] eqn:Hf; [discriminate|]. destruct f; try discriminate.
+    assert (inv (upd_frames rest s)) as I2 by fin Hi.
+    match type of H with (if ?b then _ else _) = _ => destruct b end; [exact (start_fail_inv _ _ _ I2 H)|].
+    injection H as <-. exact I2.
+  - (* symbol_pop *)
+    destruct (frames s) as [|f rest] eqn:Hf; [discriminate|]. destruct f; try discriminate. injection H as <-. fin Hi.
+  - (* match_any *) exact (after_match_inv s _ s' (m_any_k3 flags s) Hi H).
+  - (* match_eol *) exact (after_match_inv s _ s' (m_eol_k3 s) Hi H).
+  - (* match_octet *) exact (after_match_inv s _ s' (m_octet_k3 b s) Hi H).
+  - (* match_set *) exact (after_match'_inv s _ s' (m_rune_res _ _ s) Hi H).
+  - (* match_class *) exact (after_match'_inv s _ s' (m_rune_res _ _ s) Hi H).
+  - (* match *) exact (after_match'_inv s _ s' (m_seq_res _ _ _ s) Hi H).
+  - (* match_cf *) exact (after_match'_inv s _ s' (m_seq_res _ _ _ s) Hi H).
+  - (* condition_test *)
+    destruct (Bool.eqb (has_cond (conds s) nm) v); [injection H as <-; exact Hi|exact (start_fail_inv _ _ _ Hi H)].
+  - (* condition_push *) injection H as <-. fin Hi.
+  - (* symbol_exists *)
+    destruct (Bool.eqb (has_symbol (syms s) nm) v); [injection H as <-; exact Hi|exact (start_fail_inv _ _ _ Hi H)].
+  - (* symbol_match *) exact (after_match'_inv s _ s' (m_symbol_res _ _ _ _ _ s) Hi H).
+  - (* symbol_start *) injection H as <-. fin Hi.
+  - (* symbol_push *)
+    injection H as <-. destruct (kind =? 1); [fin Hi|]. destruct (kind =? 2); fin Hi.
+  - (* raise *)
+    destruct flag.
+    + destruct (frames s) as [|f rest] eqn:Hf; [discriminate|]. destruct f; try discriminate.
+      apply (raise_inv cb label (rh s) (upd_frames rest (upd_rh frh s))) in H; [exact H|]. fin Hi.
+    + apply (raise_inv cb label (rh s) s) in H; [exact H|exact Hi].
+Qed.
+
+(* Counterexample to stmt_C08_ci_counts: `commit` pops whatever frame is on top of the stack without looking at
+   its kind (lug.hpp: opcode::commit just pops), so a program executing it on top of a capture frame drops a
+   postponing frame without decrementing the counter. *)
+Definition ucd0 : ucd_table :=
+  {| t_stage1 := PositiveMap.empty N; t_stage2 := PositiveMap.empty N;
+     t_records := PositiveMap.empty raw_record; t_nrecords := 0 |}.
+Definition cex_commit : mstate :=
+  upd_ci 1 false false (upd_frames [FCapture 0] (init_state_with [] [] false false [] [])).
+
+Lemma cex_commit_step :
+  step ucd0 dummy_cb [ICommit 0%Z] cex_commit = Running (upd_pc 1%Z (upd_frames [] cex_commit)).
+Proof. vm_compute. reflexivity. Qed.
+
+Theorem C08_ci_counts_false : ~ stmt_C08_ci_counts.
+Proof.
+  intros H.
+  assert (no_rethrow_resp [ICommit 0%Z]) as Hn.
+  { intros a r Ha. destruct a as [|[|a]]; cbn in Ha; discriminate. }
+  destruct (H ucd0 dummy_cb [ICommit 0%Z] cex_commit _ Hn eq_refl eq_refl cex_commit_step) as [Hc _].
+  vm_compute in Hc. discriminate.
+Qed.
+
+(* closest true variant: the step is not a `commit` over a postponing frame (compiled programs only execute
+   `commit` on top of the backtrack frame pushed by the matching `choice`) *)
+Definition commit_ok (prog : list sinstr) (s : mstate) : Prop :=
+  forall off f rest, fmode s = 0 -> fetch prog (pc s) = Some (ICommit off) -> frames s = f :: rest -> postpones f = false.
+
+Definition stmt_C08_ci_counts_partial : Prop :=
+  forall ucd cb prog s s', no_rethrow_resp prog -> rr s < RETHROW -> commit_ok prog s ->
+    ci_inv s -> step ucd cb prog s = Running s' -> ci_inv s' /\ rr s' < RETHROW.
+
+Theorem C08_ci_counts_partial_proof : stmt_C08_ci_counts_partial.
+Proof.
+  intros ucd cb prog s s' Hnr Hr Hcm Hc H.
+  assert (inv s) as Hi by (split; assumption).
+  unfold step in H. destruct (0 <? fmode s) eqn:Ef.
+  - exact (fail_step_inv cb s s' Hi H).
+  - destruct (fetch prog (pc s)) as [i|] eqn:Efetch.
+    + apply (exec_inv ucd cb i (upd_pc (pc s + 1)%Z s)) in H; [exact H|exact Hi| |].
+      * intros r ->. unfold fetch in Efetch. destruct (pc s <? 0)%Z; [discriminate|]. exact (Hnr _ _ Efetch).
+      * intros off f rest -> Hf. apply (Hcm off f rest); [lia|exact Efetch|exact Hf].
+    + destruct (success s); [|discriminate]. destruct (final_accept s); discriminate.
+Qed.
+
+(* ------------------------------------------------------------------ axioms *)
+Print Assumptions C08_ci_counts_false.
+Print Assumptions C08_ci_counts_partial_proof.
+Print Assumptions C08_deferred_proof.
+Print Assumptions C08_commit_when_zero_proof.
+Print Assumptions C08_accept_when_zero_proof.
+Print Assumptions C08_tombstone_skipped_proof.
+Print Assumptions C03_growth_strict_false.
+Print Assumptions C03_growth_strict_partial_proof.
+Print Assumptions C03_finish_general.
+Print Assumptions C03_prec_filter_proof.
+Print Assumptions C03_memo_answer_proof.
+Print Assumptions C05_inhibited_raise_proof.
+Print Assumptions C05_raise_pushes_proof.
+Print Assumptions C20_no_poll_while_unread_proof.
+Print Assumptions C09_available_preserves_input_proof.
+Print Assumptions C09_available_total_proof.
+Print Assumptions C18_reset_total_proof.
+Print Assumptions C18_reset_agree_proof.
